@@ -22,10 +22,12 @@ VARIABLES l,
   ncommit,    \* [Files -> Int]  installs observed
   must,       \* SUBSET Files    tables that exist as far as committed transactions know
   failed,     \* SUBSET Procs   processes whose failure has been judged
+  pend,       \* [inc |-> BOOLEAN, fs |-> SUBSET Files]  a COMMIT statement is under way (tx.commit.begin seen, tx.commit.end
+              \*   not yet) and the tables it has installed that no committed transaction knew
   bad,        \* "" or the name of the first violated observation of the current execution
   tno         \* number of the current execution in the trace file
 
-ovars == <<l, holdU, reading, ver, ncommit, must, failed, bad, tno>>
+ovars == <<l, holdU, reading, ver, ncommit, must, failed, pend, bad, tno>>
 
 ObsInit ==
   /\ l = 1
@@ -35,6 +37,7 @@ ObsInit ==
   /\ ncommit = [f \in Files |-> 0]
   /\ must = {}
   /\ failed = {}
+  /\ pend = [inc |-> FALSE, fs |-> {}]
   /\ bad = ""
   /\ tno = 0
 
@@ -45,6 +48,7 @@ Reset(e) ==
   /\ ncommit' = [f \in Files |-> 0]
   /\ must' = {f \in Files : e.exists[f]}
   /\ failed' = {}
+  /\ pend' = [inc |-> FALSE, fs |-> {}]
   /\ bad' = ""
   /\ tno' = tno + 1
 
@@ -91,6 +95,12 @@ Apply(e) ==
   /\ ncommit' = [f \in Files |-> IF f \in must /\ Installs(e, f) THEN ncommit[f] + 1 ELSE ncommit[f]]
   /\ must' = must \cup {f \in Files : Installs(e, f) /\ (HasDir(e) => e.dir[f].exists)}
   /\ failed' = IF e.out \notin {"run", "ok"} THEN failed \cup {e.p} ELSE failed
+  \* a COMMIT statement that does not reach its end has failed: the transaction is not committed, and what it
+  \* created must not stay (runs of the binary log tx.commit.begin / tx.commit.end; single process)
+  /\ pend' = IF e.pt = "tx.commit.begin" THEN [inc |-> TRUE, fs |-> {}]
+             ELSE IF e.pt = "tx.commit.end" THEN [inc |-> FALSE, fs |-> {}]
+             ELSE IF pend.inc THEN [pend EXCEPT !.fs = @ \cup {f \in Files \ must : Installs(e, f)}]
+             ELSE pend
   /\ bad' = IF bad # "" THEN bad ELSE Check(e)
   /\ UNCHANGED tno
 
@@ -99,6 +109,7 @@ EndCheck(e) ==
   IF \E f \in Files : e.dir[f].lock \/ e.dir[f].nrlock > 0 \/ e.dir[f].temp THEN "ObsCleanExit:control-file-left"
   ELSE IF \E f \in must : e.dir[f].ver # ncommit[f] THEN "ObsNoLostUpdate:final-count"
   ELSE IF \E f \in Files \ must : e.dir[f].exists THEN "ObsCleanExit:uncommitted-table-left"
+  ELSE IF pend.inc /\ \E f \in pend.fs : e.dir[f].exists THEN "ObsCleanExit:table-created-by-failed-commit-left"
   ELSE IF \E f \in must : ~e.dir[f].exists THEN "ObsDurable:table-missing"
   ELSE IF "readonly" \in DOMAIN e /\ e.readonly /\ ~e.unchanged THEN "ObsReadOnly:files-changed"
   ELSE ""
@@ -112,7 +123,7 @@ ObsNext ==
        \/ /\ e.a = "end"
           /\ bad' = IF bad # "" THEN bad ELSE EndCheck(e)
           /\ PrintT(<<"OBS", tno, bad'>>)          \* the verdict of this execution, read by the harness
-          /\ UNCHANGED <<holdU, reading, ver, ncommit, must, failed, tno>>
+          /\ UNCHANGED <<holdU, reading, ver, ncommit, must, failed, pend, tno>>
 
 ObsSpec == ObsInit /\ [][ObsNext]_ovars
 
